@@ -207,6 +207,9 @@ impl Ctx {
         match r {
             Ok(v) => Some(v),
             Err(p) => {
+                if let Some(b) = p.downcast_ref::<crate::payload::HarnessBug>() {
+                    self.errors.push(format!("[harness] {}", b.0));
+                }
                 self.last.panicked = true;
                 self.panics_caught.push(p);
                 None
@@ -305,7 +308,7 @@ impl Ctx {
                                 H::Thin(a) => H::Thin(a.clone()),
                                 H::TFat(p) => H::Fat((**p).clone()),
                                 H::TMut(p) => H::Prot((**p).clone()),
-                                _ => panic!("harness: Clone on wrong kind"),
+                                _ => crate::payload::harness_bug("Clone on wrong kind"),
                             }
                         })
                     }
@@ -321,7 +324,7 @@ impl Ctx {
                         H::Fat(a) => drop(a),
                         H::Prot(a) => drop(a),
                         H::Thin(a) => drop(a),
-                        _ => panic!("harness: Drop on wrong kind"),
+                        _ => crate::payload::harness_bug("Drop on wrong kind"),
                     });
                 }
             }
@@ -348,7 +351,7 @@ impl Ctx {
                             ("ThinFromPtr", H::RawThin(p)) => H::Thin(<Thin as arc_swap::RefCnt>::from_ptr(p)),
                             (n, h) => {
                                 std::mem::forget(h);
-                                panic!("harness: {} on wrong kind", n)
+                                crate::payload::harness_bug(&format!("{} on wrong kind", n))
                             }
                         }
                     });
@@ -442,7 +445,7 @@ impl Ctx {
                                     }
                                     None => false,
                                 },
-                                _ => panic!("harness: GetMut on wrong kind"),
+                                _ => crate::payload::harness_bug("GetMut on wrong kind"),
                             }
                         })
                     }
